@@ -7,5 +7,6 @@ CONSTANTS
   LimitSet = {10}
   Hist = 1
   Policy = "per_message"
+CONSTRAINT Emit
 INVARIANTS InvCompleteIsWhole InvOrder InvFailStop InvNothingPastViolation InvLimitHistoryFree InvOverLimit InvDecode
 CHECK_DEADLOCK FALSE
